@@ -553,6 +553,55 @@ static void gen_cases (int ncases)
     }
 }
 
+static long st_wide_px;
+/* ------------------------------------------------------------------ wide pipeline, BILINEAR (spec oracle only)
+ * The float fetchers are not modelled; their bilinear single-pixel reader is judged against the Spec directly: an
+ * rgba_float source under a pure translation, every repeat mode, SRC into rgba_float.  Tap (x1,y1) = floor of the
+ * sample position minus one half, weights = its 16-bit fraction / 65536, the four taps are repeat-mapped independently
+ * (NONE: taps outside the image are transparent).  Evaluated in double; tolerance 1e-5 (binary32 rounding is ~1e-7). */
+static int spec_rep (int c, int n, int rep, int *inside)
+{
+    *inside = 1;
+    if (rep == 0) { if (c < 0 || c >= n) *inside = 0; return c; }
+    if (rep == 1) { c %= n; if (c < 0) c += n; return c; }
+    if (rep == 2) return c < 0 ? 0 : c >= n ? n - 1 : c;
+    c %= 2 * n; if (c < 0) c += 2 * n; return c >= n ? 2 * n - 1 - c : c;
+}
+static void gen_float_bilinear (int n)
+{
+    for (int it = 0; it < n; it++) {
+        int w = rng_range (1, 6), h = rng_range (1, 5), rep = rng_n (4), W = 8, H = 4, bad = 0;
+        int32_t tx = rng_range (-4 * 65536, (w + 3) * 65536), ty = rng_range (-4 * 65536, (h + 3) * 65536);
+        if (rng_chance (25)) tx &= ~0xffff; if (rng_chance (25)) ty &= ~0xffff; if (rng_chance (20)) tx = (tx & ~0xffff) | 0x8000;
+        float *sb = calloc ((size_t) w * h * 4, sizeof (float)), *db = calloc ((size_t) W * H * 4, sizeof (float));
+        for (int i = 0; i < w * h * 4; i++) sb[i] = (float) rng_n (1 << 16) / 65536.f;
+        pixman_image_t *s = pixman_image_create_bits (PIXMAN_rgba_float, w, h, (uint32_t *) sb, w * 16), *d = pixman_image_create_bits (PIXMAN_rgba_float, W, H, (uint32_t *) db, W * 16);
+        pixman_transform_t t; pixman_transform_init_identity (&t); t.matrix[0][2] = tx; t.matrix[1][2] = ty;
+        static const pixman_repeat_t reps[] = { PIXMAN_REPEAT_NONE, PIXMAN_REPEAT_NORMAL, PIXMAN_REPEAT_PAD, PIXMAN_REPEAT_REFLECT };
+        if (!s || !d) { if (s) pixman_image_unref (s); if (d) pixman_image_unref (d); free (sb); free (db); continue; }
+        pixman_image_set_transform (s, &t); pixman_image_set_filter (s, PIXMAN_FILTER_BILINEAR, NULL, 0); pixman_image_set_repeat (s, reps[rep]);
+        pixman_image_composite32 (PIXMAN_OP_SRC, s, NULL, d, 0, 0, 0, 0, 0, 0, W, H);
+        for (int y = 0; y < H && !bad; y++) for (int x = 0; x < W && !bad; x++) {
+            int64_t X = (int64_t) x * 65536 + tx, Y = (int64_t) y * 65536 + ty;
+            int x1 = (int) (X >> 16), y1 = (int) (Y >> 16); double fx = (double) (X & 0xffff) / 65536.0, fy = (double) (Y & 0xffff) / 65536.0;
+            for (int c = 0; c < 4 && !bad; c++) {
+                double acc = 0;
+                for (int k = 0; k < 4; k++) {
+                    int ix, iy, cx = spec_rep (x1 + (k & 1), w, rep, &ix), cy = spec_rep (y1 + (k >> 1), h, rep, &iy);
+                    double wgt = ((k & 1) ? fx : 1 - fx) * ((k >> 1) ? fy : 1 - fy);
+                    if (ix && iy) acc += wgt * (double) sb[(cy * w + cx) * 4 + c];
+                }
+                double got = db[(y * W + x) * 4 + c];
+                if (!(got - acc < 1e-5 && acc - got < 1e-5)) {
+                    oracle_line ("wide-bilinear: rgba_float %dx%d source, repeat %d, translation (%d,%d)/65536, BILINEAR, SRC into rgba_float: pixel (%d,%d) channel %d is %.7f, Spec %.7f",
+                                 w, h, rep, tx, ty, x, y, c, got, acc);
+                    bad = 1; }
+            } }
+        st_wide_px += (long) W * H;
+        pixman_image_unref (s); pixman_image_unref (d); free (sb); free (db);
+    }
+}
+
 int main (int argc, char **argv)
 {
     if (argc >= 7 && !strcmp (argv[1], "gen")) {
@@ -560,6 +609,7 @@ int main (int argc, char **argv)
         f_ops = fopen (argv[4], "w"); f_impl = fopen (argv[5], "w"); f_orc = fopen (argv[6], "w");
         if (!f_ops || !f_impl || !f_orc) return 2;
         gen_cases (atoi (argv[3]));
+        { long keep = lineno; lineno = 0; gen_float_bilinear (400); lineno = keep; }
     } else if (argc >= 5 && !strcmp (argv[1], "exec")) {
         FILE *in = fopen (argv[2], "r");
         f_impl = fopen (argv[3], "w"); f_orc = fopen (argv[4], "w");
@@ -579,6 +629,7 @@ int main (int argc, char **argv)
     fprintf (f_orc, "STAT %ld requests judged by the Spec oracle\n", st_oracle_req);
     fprintf (f_orc, "STAT %ld pixels compared with the Spec (affine, exact)\n", st_oracle_px);
     fprintf (f_orc, "STAT %ld pixels judged within tolerance (projective nearest)\n", st_proj_px);
+    fprintf (f_orc, "STAT %ld pixels of the wide (float) bilinear reader compared with the Spec\n", st_wide_px);
     fprintf (f_orc, "STAT %ld requests outside the oracle's regime (range, pole, projective non-nearest)\n", st_notjudged);
     return 0;
 }
